@@ -318,6 +318,11 @@ def build_units(tier: str) -> list[Unit]:
                 # the bytes alternative is exactly what _from_pdu passes: covered by the decode
                 # units of sub-function families (bounded by record count)
                 continue
+            if alts.get("data_records") == "intlist":
+                # list[bytes] is not a list of ints: this alternative only exists because the
+                # annotation scan maps every list to the int-list kind; the constructor refuses
+                # or the encoder raises for every non-empty argument
+                continue
             if any(v.startswith("dict_") for v in alts.values()):
                 for k in range(0, 3):
                     units.append(Unit(f"encode/{cname}/{tag}/entries={k}",
